@@ -207,6 +207,50 @@ def setExonsWith (grow : Nat → Nat → Nat) (sort : List Exon → List Exon)
 def setExons (h : Heap) (t : Tx) (xs : List Exon) : Heap × Tx × Option Err :=
   setExonsWith exactGrow sortByStart h t xs
 
+/-! ### histories (what the `xs` and `tx` cases of the harness run) -/
+
+/-- one step of a history on a bare `Exons` variable `s` -/
+inductive XsOp
+  | add (xs : List Exon) (keep : Bool)   -- `r, err := s.Add(xs...)`, then `s = r` if `keep`
+  | upTo (j : Nat)                       -- `s = s[:min(j, cap(s))]`
+  | drop (j : Nat)                       -- `s = s[min(j, len(s)):]`
+
+def xsApply (st : Heap × Slice) : XsOp → Heap × Slice
+  | .add xs keep =>
+    match add st.1 st.2 xs with
+    | (h', r, _) => (h', if keep then r else st.2)
+  | .upTo j => (st.1, { st.2 with len := min j (cap st.1 st.2) })
+  | .drop j => (st.1, { st.2 with off := st.2.off + min j st.2.len, len := st.2.len - min j st.2.len })
+
+/-- `s := make(Exons, n, len(cells0)); copy(s[:cap(s)], cells0)` in the initial heap -/
+def xsInit (n : Nat) (cells0 : List Exon) : Heap × Slice := (Heap.init ++ [cells0], ⟨1, 0, n⟩)
+
+def xsRun (st : Heap × Slice) (ops : List XsOp) : Heap × Slice := ops.foldl xsApply st
+
+/-- one step of a history on a transcript `t` -/
+inductive TxOp
+  | set (xs : List Exon)       -- `err := t.SetExons(xs...)`
+  | addDrop (xs : List Exon)   -- `_, err := t.Exons().Add(xs...)`
+  | addSet (xs : List Exon)    -- `r, err := t.Exons().Add(xs...); if err == nil { err = t.SetExons(r...) }`
+
+def txApply (st : Heap × Tx) : TxOp → (Heap × Tx) × Option Err
+  | .set xs =>
+    match setExons st.1 st.2 xs with
+    | (h', t', e) => ((h', t'), e)
+  | .addDrop xs =>
+    match add st.1 st.2.exons xs with
+    | (h', _, e) => ((h', st.2), e)
+  | .addSet xs =>
+    match add st.1 st.2.exons xs with
+    | (h', _, some e) => ((h', st.2), some e)
+    | (h', r, none) =>
+      match setExons h' st.2 (read h' r) with
+      | (h'', t', e) => ((h'', t'), e)
+
+def txInit (id : Nat) : Heap × Tx := (Heap.init, { id := id, exons := Slice.nil })
+
+def txRun (st : Heap × Tx) (ops : List TxOp) : Heap × Tx := ops.foldl (fun st op => (txApply st op).1) st
+
 /-! ### Introns -/
 
 structure Intron where
